@@ -58,7 +58,7 @@ func main() {
 		json.NewEncoder(os.Stdout).Encode(map[string]interface{}{
 			"NoExpiration": int64(cache.NoExpiration), "DefaultExpiration": int64(cache.DefaultExpiration),
 			"DefaultCleanupInterval": int64(cache.DefaultCleanupInterval), "DefaultMinCapacity": cache.DefaultMinCapacity,
-			"access": haveAccess, "mapSlots": ms, "mapOfSlots": mos, "minTableLen": ml,
+			"access": haveAccess, "pins": havePins, "phys": havePhys, "project": haveProject, "mapSlots": ms, "mapOfSlots": mos, "minTableLen": ml,
 		})
 	case "seq":
 		var progs []SeqProgram
